@@ -457,10 +457,19 @@ theorem scaleList_vec (α : ℝ) (a : Vec3 ℝ) : scaleList α a.toList = (a.smu
 theorem alg_add_eq (x y extra : List ℝ) (h : y.length = x.length) :
     algAdd x (y ++ extra) = some (List.zipWith (· + ·) x y) := by
   unfold algAdd
-  have hl : ¬ (y ++ extra).length < x.length := by simp [h]
-  rw [if_neg hl, ← h, List.take_left']
+  have hl : x.length ≤ (y ++ extra).length := by simp [h]
+  rw [if_pos hl, ← h, List.take_left']
   · rfl
   · rfl
+/-- a width-1 operand broadcasts against the components (torch addition); widths 0 and 2..m−1 are rejected -/
+theorem alg_add_width_one (x : List ℝ) (c : ℝ) (h : 1 < x.length) : algAdd x [c] = some (x.map (fun v => v + c)) := by
+  unfold algAdd
+  have hl : ¬ x.length ≤ [c].length := by simp; omega
+  rw [if_neg hl]; simp
+theorem alg_add_short (x o : List ℝ) (h : o.length < x.length) (h1 : o.length ≠ 1) : algAdd x o = none := by
+  unfold algAdd
+  have hl : ¬ x.length ≤ o.length := by omega
+  simp [hl, h1]
 
 
 /-! ## histories of `+` updates -/
